@@ -26,6 +26,8 @@ type c06Input struct {
 	U      uint64     `json:"u"`
 	Kind   string     `json:"kind,omitempty"`
 	Content string    `json:"content,omitempty"`
+	PKIdx  []uint32   `json:"pkIdx,omitempty"`
+	Spec   *TableSpec `json:"spec,omitempty"`
 }
 
 type c06Table struct {
@@ -282,8 +284,107 @@ func genRow(r *rand.Rand, big bool) []string {
 
 func genSum(r *rand.Rand) string { return hx([]byte(genBytes(r, 16))) }
 
+// c06BlockIndex builds the index of a block with the real IndexBlock, writes it, reads it back and
+// writes it again; also stores it and reads it through the store.
+func c06BlockIndex(rows [][]string, pk []uint32) Res {
+	return Guard(func() Res {
+		idx, err := objects.IndexBlock(objects.NewStrListEncoder(true), meow.New(0), rows, pk)
+		if err != nil {
+			return Err("index")
+		}
+		b1 := newBuf()
+		if _, err := idx.WriteTo(b1); err != nil {
+			return Err("write")
+		}
+		_, idx2, err := objects.ReadBlockIndex(bytes.NewReader(b1.Bytes()))
+		if err != nil {
+			return Err("read")
+		}
+		b2 := newBuf()
+		idx2.WriteTo(b2)
+		db := NewMemStore()
+		sum, _, err := objects.SaveBlockIndex(db, nil, b1.Bytes())
+		if err != nil {
+			return Err("save")
+		}
+		want := meow.Checksum(0, b1.Bytes())
+		idx3, _, err := objects.GetBlockIndex(db, nil, sum)
+		if err != nil {
+			return Err("get")
+		}
+		b3 := newBuf()
+		idx3.WriteTo(b3)
+		parsed, err := parseBlockIndexBytes(b1.Bytes())
+		if err != nil {
+			return Err("parse")
+		}
+		return Ok(map[string]interface{}{"bytes": hx(b1.Bytes()), "reencoded": hx(b2.Bytes()), "fromStore": hx(b3.Bytes()),
+			"keyIsHash": bytes.Equal(sum, want[:]), "idx": parsed})
+	})
+}
+
+// c06Profile: the profile a real ingest stores, decoded and re-encoded.
+func c06Profile(t *TableSpec) Res {
+	return Guard(func() Res {
+		db := NewMemStore()
+		sum, err := IngestCSV(db, t.CSV(0), t.PK, IngestCfg{})
+		if err != nil {
+			return Err("ingest")
+		}
+		raw, err := db.Get(append([]byte("tblsum/"), sum...))
+		if err != nil {
+			return Err("no-profile")
+		}
+		p, err := objects.GetTableProfile(db, sum)
+		if err != nil {
+			return Err("get")
+		}
+		b := newBuf()
+		if _, err := p.WriteTo(b); err != nil {
+			return Err("write")
+		}
+		p2 := &objects.TableProfile{}
+		if _, err := p2.ReadFrom(bytes.NewReader(b.Bytes())); err != nil {
+			return Err("read")
+		}
+		b2 := newBuf()
+		p2.WriteTo(b2)
+		return Ok(map[string]interface{}{"stored": hx(raw), "reencoded": hx(b.Bytes()), "reencoded2": hx(b2.Bytes()),
+			"rowsCount": int(p.RowsCount), "columns": len(p.Columns), "rows": len(t.Rows), "cols": len(t.Columns)})
+	})
+}
+
 func runC06(ctx *Ctx) {
 	r := ctx.R
+	if ctx.Idx%16 == 8 {
+		n := r.Intn(6)
+		if r.Intn(5) == 0 {
+			n = 255
+		}
+		nc := 1 + r.Intn(3)
+		rows := make([][]string, n)
+		for i := range rows {
+			rows[i] = make([]string, nc)
+			for c := range rows[i] {
+				rows[i][c] = genCell(r)
+			}
+		}
+		pk := []uint32{}
+		if r.Intn(3) != 0 {
+			pk = append(pk, uint32(r.Intn(nc)))
+		}
+		in := c06Input{Rows: hxRows(rows), PKIdx: pk}
+		if in.Rows == nil {
+			in.Rows = [][]string{}
+		}
+		ctx.Emit("blockindex", in, c06BlockIndex(rows, pk), n > 0)
+		return
+	}
+	if ctx.Idx%16 == 9 {
+		t := GenTable(r, 1+r.Intn(4), 1+r.Intn(300), []int{0}, 0)
+		ctx.Emit("profile", c06Input{Spec: t}, c06Profile(t), true)
+		return
+	}
 	switch ctx.Idx % 8 {
 	case 0, 1:
 		big := r.Intn(4) == 0
@@ -384,5 +485,15 @@ func corpusC06(ctx *Ctx, op string, raw json.RawMessage) {
 		ctx.Emit(op, in, c06Hdr(in.Type, in.U), true, "corpus")
 	case "save":
 		ctx.Emit(op, in, c06Save(in.Kind, unhx(in.Content)), true, "corpus")
+	case "blockindex":
+		rows := make([][]string, len(in.Rows))
+		for i, r := range in.Rows {
+			rows[i] = unhexStrs(r)
+		}
+		ctx.Emit(op, in, c06BlockIndex(rows, in.PKIdx), true, "corpus")
+	case "profile":
+		if in.Spec != nil {
+			ctx.Emit(op, in, c06Profile(in.Spec), true, "corpus")
+		}
 	}
 }
